@@ -11,6 +11,12 @@
    are abstract state machines; every invocation is appended to a log.
    ndeflib is an oracle: decodable / complete / is_hr are abstract predicates.
 
+   Domain: send MIUs >= 1 (range() step; LLCP guarantees >= 128); the 6 octet control messages
+   (Continue / Reject / responses) are sent without a size test in the code, the channel flags
+   a message above its limit (g_err, socket.send raising EMSGSIZE) and the theorems show the
+   flag stays false for MIUs >= 6.  Connection set-up / release and the listen threads are not
+   modelled; a session is a list of operations on one established connection followed by
+   close().
    Definitions only; proofs are in Proofs/Snep*.v. *)
 From Coq Require Import ZArith List Bool.
 From NV Require Import Base.Result Base.Bytes Base.PyPrims.
